@@ -177,21 +177,29 @@ theorem fista_ticks_after_stop (P : Problem α) (pr : Params α) (stop : Nat →
     have := fista_mainLoop_ticks_after_stop P pr stop hmono t0 h0 oot x0 y Sig errz0 (pr.maxIter + 2) s
     omega
 
-/-- With the flag visible, the status is `Interrupted` unless a natural exit takes precedence. -/
+/-- **With the flag visible at a loop-head check, the status is `Interrupted`, or it is the natural status
+    whose own condition held at that head**: `Converged ∧ ε ≤ tol'`, `MaxTime ∧ out of time`,
+    `MaxIter ∧ k = max_iter`, `NotFinite ∧ ε not finite`, `NoProgress ∧ counter > max_no_progress`
+    (ε, k, counter = the values handed to `check_all_stop_conditions` at that head). -/
 theorem fista_interrupted_or_natural (P : Problem α) (pr : Params α) (stop : Nat → Bool) (oot : Bool)
     (s : St α) (hs : stop (headStep P pr stop oot s).1.tick = true) :
-    (headStep P pr stop oot s).2.2 = .Interrupted ∨ (headStep P pr stop oot s).2.2 = .Converged ∨
-    (headStep P pr stop oot s).2.2 = .MaxTime ∨ (headStep P pr stop oot s).2.2 = .MaxIter ∨
-    (headStep P pr stop oot s).2.2 = .NotFinite ∨ (headStep P pr stop oot s).2.2 = .NoProgress := by
+    (headStep P pr stop oot s).2.2 = .Interrupted ∨
+    ((headStep P pr stop oot s).2.2 = .Converged ∧ (headStep P pr stop oot s).2.1 ≤ C06.effTol pr.tolerance) ∨
+    ((headStep P pr stop oot s).2.2 = .MaxTime ∧ oot = true) ∨
+    ((headStep P pr stop oot s).2.2 = .MaxIter ∧ s.k = pr.maxIter) ∨
+    ((headStep P pr stop oot s).2.2 = .NotFinite ∧ RealLike.isFinite (headStep P pr stop oot s).2.1 = false) ∨
+    ((headStep P pr stop oot s).2.2 = .NoProgress ∧
+      (headStep P pr stop oot s).1.noProgress > pr.maxNoProgress) := by
   have e : (headStep P pr stop oot s).2.2 =
       statusChain pr.tolerance pr.maxIter pr.maxNoProgress s.k (epsOf P pr s.curr)
         (noProgressUpdate s.noProgress s.k pr.maxNoProgress (s.curr.xhat == s.prev)) oot
         (stop (headStep P pr stop oot s).1.tick) := by
     unfold headStep statusOf; simp only []
-  rw [e, hs]
-  unfold statusChain
-  simp only []
-  split_ifs <;> simp
+  have e1 : (headStep P pr stop oot s).2.1 = epsOf P pr s.curr := by unfold headStep; rfl
+  have e2 : (headStep P pr stop oot s).1.noProgress =
+      noProgressUpdate s.noProgress s.k pr.maxNoProgress (s.curr.xhat == s.prev) := by unfold headStep; rfl
+  rw [e, hs, e1, e2]
+  exact C06.stop_gives_interrupted_or_natural _ _ _ _ _ _ _
 
 /-! ### Non-vacuity: the concrete run of `Props/C03_Fista`, interrupted from the first callback -/
 
